@@ -379,3 +379,80 @@ reg('C20', module='c20', level='exploration',
                        'callbacks_counted': 100000},
              'thorough': {'diamond_measurements': 400,
                           'deep_chains_ok': 300}})
+
+reg('C18', module='c18', level='exploration',
+    technique=('runtime monitoring: pySMT optimiser mix-ins run over a '
+               'brute-force solver back-end; returned models/costs/fronts '
+               'compared with optima computed by enumerating all models '
+               'with the reference evaluator; assertion stack compared '
+               'before/after and by a push/assert/pop round trip'),
+    rule=('random finite-domain constraint systems (Bool, BV3, integers '
+          'bounded to [-4,4]) x Int/BV/MaxSMT/MinMax/MaxMin goals x {linear, '
+          'binary} x {assumption-based, incremental} x {optimize, boxed, '
+          'lexicographic, pareto} x two model-enumeration orders; distinct = '
+          '(mode, mixin, strategy, case index)'),
+    level_text=('every returned cost is compared with the optimum over the '
+                'complete model set (finite domains, enumerated), models are '
+                're-evaluated against the assertions, unsat <-> None, exact '
+                'lexicographic vectors and Pareto fronts; progress is judged '
+                'in solver calls, never wall-clock.'),
+    level_note=('the satisfiability oracle is vf/brutesolver.py (exhaustive '
+                'enumerator); trusts vf/refeval.py'),
+    assumptions=['soft-clause weights are integers whenever bisection is '
+                 'used', 'all optima are attained (bounded domains)'],
+    require={'quick': {'optimisations_run': 3000, 'optima_compared': 2000,
+                       'stack_roundtrips': 2000, 'mode_pareto': 500,
+                       'mode_lexicographic': 500},
+             'thorough': {'optimisations_run': 100000,
+                          'optima_compared': 80000}})
+
+reg('C07', module='c07', level='exploration',
+    technique=('runtime monitoring: text written by to_smtlib / '
+               'smtlibscript_from_formula + serialize is read by an '
+               'independent strict SMT-LIB 2.6 reader (own tokenizer, sort '
+               'checker, scoping) and its value is compared with the '
+               'reference value of the FNode'),
+    rule=('hand-shaped cases (let-name clashes, bound .def_N, negative/'
+          'rational/huge constants, quotes, constant arrays, parametric '
+          'sorts, hostile symbol names), every operator with systematic '
+          'operand shapes, random DAGs with sharing and hostile names; x '
+          '{tree, dag} term printers x {tree, dag} scripts; distinct = '
+          '(printer, formula key)'),
+    level_text=('each printed text must be accepted by the strict reader '
+                '(declared-before-use, exactly once, well-sorted, standard '
+                'symbols only) and evaluate like the formula on all '
+                'interpretations (finite domains) or 16 samples.'),
+    level_note=('trusts vf/smtread.py (own reading of the SMT-LIB 2.6 '
+                'standard) and vf/refeval.py'),
+    assumptions=['symbol names: any printable string except reserved words, '
+                 'theory symbols, literal spellings and names containing | '
+                 'or backslash', '(/ n m) over numerals is accepted as a '
+                 'rational literal'],
+    require={'quick': {'texts_compared': 3000, 'how_dag': 800,
+                       'how_script-dag': 300},
+             'thorough': {'texts_compared': 100000}})
+
+reg('C17', module='c17', level='exploration',
+    technique=('runtime monitoring: SmtLibSolver (obtained through '
+               'add_generic_solver + Solver(name=...)) driven through random '
+               'API histories against a strict reference SMT-LIB solver '
+               'process whose command/reply log is checked offline; verdicts '
+               'and models compared with brute-force truth'),
+    rule=('histories of 4-25 calls over add_assertion / push(1|2) / pop(1|2) '
+          '/ solve / get_value / get_py_value / get_model / '
+          'reset_assertions / is_sat / is_valid / is_unsat on formulas over '
+          'Bool, BV2 and a declared sort with symbols first used at '
+          'different levels; plus the factory shortcuts; distinct = '
+          'history index (each history is a fresh random sequence)'),
+    level_text=('the reference solver rejects every illegal command '
+                '(undeclared/redeclared symbol, pop beyond depth, ill-sorted '
+                'term) and logs one reply per command; the harness joins '
+                'that log with its own record of API calls, truth is '
+                'computed by enumeration, models are re-evaluated.'),
+    level_note='trusts vf/smtread.py, vf/refsolver.py and vf/refeval.py',
+    assumptions=['finite-domain theories only (Bool, bit-vectors, declared '
+                 'sorts without functions)'],
+    require={'quick': {'histories': 800, 'api_calls': 8000,
+                       'commands_logged': 8000, 'verdicts_compared': 1500,
+                       'shortcuts_compared': 50},
+             'thorough': {'histories': 20000, 'api_calls': 200000}})
